@@ -8,6 +8,7 @@ import (
 	"errors"
 	"fmt"
 	"io"
+	"sync"
 
 	"github.com/godaddy/asherah/go/securememory"
 
@@ -62,20 +63,20 @@ func (r *KeyRegistry) id(b []byte) int {
 func (r *KeyRegistry) IDOf(b []byte) int { return r.keyIDs[string(b)] }
 
 type TrackFactory struct {
-	Secrets  []*TrackSecret
-	Reg      *KeyRegistry
-	Name     string
+	Secrets []*TrackSecret
+	Reg     *KeyRegistry
+	Name    string
 	// NewSources keeps every slice handed to New (C10: must be wiped on return).
 	NewSources [][]byte
 	// Fault, if set, is asked before every creation; returning true makes it fail the way
 	// protectedmemory fails early (before the source slice is wiped).
-	Fault      func(kind string, index int) bool
+	Fault func(kind string, index int) bool
 	// FaultMode 1: every creation is a Choose point {ok, fail}
-	FaultMode  int
-	NewCalls   int
-	RandCalls  int
+	FaultMode     int
+	NewCalls      int
+	RandCalls     int
 	UseAfterClose []string
-	Seed       uint64
+	Seed          uint64
 }
 
 func NewTrackFactory() *TrackFactory {
@@ -96,6 +97,7 @@ var errAlloc = errors.New("doubles: injected secret allocation failure")
 
 // New implements securememory.SecretFactory.
 func (f *TrackFactory) New(b []byte) (securememory.Secret, error) {
+	defer vsched.LockDoubles()()
 	idx := f.NewCalls
 	f.NewCalls++
 	f.NewSources = append(f.NewSources, b)
@@ -113,6 +115,7 @@ func (f *TrackFactory) New(b []byte) (securememory.Secret, error) {
 
 // CreateRandom implements securememory.SecretFactory with counter-derived bytes.
 func (f *TrackFactory) CreateRandom(size int) (securememory.Secret, error) {
+	defer vsched.LockDoubles()()
 	idx := f.RandCalls
 	f.RandCalls++
 	if (f.Fault != nil && f.Fault("CreateRandom", idx)) || (f.FaultMode == 1 && vsched.Choose(2, "secret.CreateRandom") != 0) {
@@ -148,7 +151,10 @@ func (f *TrackFactory) Live() []*TrackSecret {
 	return out
 }
 
+var freeCond = sync.NewCond(&vsched.FreeMu)
+
 func (s *TrackSecret) access() error {
+	defer vsched.LockDoubles()()
 	vsched.Point(&vsched.Op{Kind: "Secret.access", Obj: &s.obj})
 	if s.closing || s.Closed {
 		s.AfterClose++
@@ -161,8 +167,12 @@ func (s *TrackSecret) access() error {
 }
 
 func (s *TrackSecret) release() {
+	defer vsched.LockDoubles()()
 	vsched.Point(&vsched.Op{Kind: "Secret.release", Obj: &s.obj})
 	s.Readers--
+	if vsched.FreeRunning() {
+		freeCond.Broadcast()
+	}
 }
 
 func (s *TrackSecret) WithBytes(action func([]byte) error) error {
@@ -182,14 +192,21 @@ func (s *TrackSecret) WithBytesFunc(action func([]byte) ([]byte, error)) ([]byte
 }
 
 func (s *TrackSecret) IsClosed() bool {
+	defer vsched.LockDoubles()()
 	vsched.Point(&vsched.Op{Kind: "Secret.IsClosed", Obj: &s.obj})
 	return s.Closed
 }
 
 func (s *TrackSecret) Close() error {
+	defer vsched.LockDoubles()()
 	vsched.Point(&vsched.Op{Kind: "Secret.Close", Obj: &s.obj})
 	s.CloseCalls++
 	s.closing = true
+	if vsched.FreeRunning() && !vsched.Active() {
+		for s.Readers > 0 {
+			freeCond.Wait()
+		}
+	}
 	vsched.Point(&vsched.Op{Kind: "Secret.Close.wait", Obj: &s.obj, Enabled: func() bool { return s.Readers == 0 }})
 	if s.Closed {
 		return nil
